@@ -19,13 +19,19 @@ def NPat.isCommutative (np : NPat) : Bool :=
   | some (d, o) => d == "" && commutativeOps.contains o
   | none => false
 
+/-- the node is offered for swapping: its identifier is commutative, and — with proposed fix C06-F7b
+(`fix7b = true`) — it is written with exactly two inputs -/
+def NPat.swappable (fix7b : Bool) (np : NPat) : Bool :=
+  np.isCommutative && (!fix7b || np.inputs.length == 2)
+
 /-- `commute_node` -/
-def commuteNode (np : NPat) : List Bool := if np.isCommutative then [false, true] else [false]
+def commuteNode (fix7b : Bool) (np : NPat) : List Bool :=
+  if np.swappable fix7b then [false, true] else [false]
 
 /-- `itertools.product(*iteration_space)` (last factor varies fastest) -/
-def masks : List NPat → List (List Bool)
+def masks (fix7b : Bool) : List NPat → List (List Bool)
   | [] => [[]]
-  | np :: rest => (commuteNode np).flatMap (fun b => (masks rest).map (b :: ·))
+  | np :: rest => (commuteNode fix7b np).flatMap (fun b => (masks fix7b rest).map (b :: ·))
 
 mutual
 /-- `ValuePattern.clone` and its overrides; state = next fresh object id -/
@@ -81,6 +87,23 @@ end
 
 /-- the `Constant` patterns among the inputs of a node pattern, in input order -/
 def NPat.consts (n : NPat) : List ConstPat := constsL (n.inputs.filterMap id)
+
+mutual
+/-- a value pattern up to object identity: ids erased (and `can_match_none` of a bare
+`ValuePattern`, which `ValuePattern.clone` does not copy) -/
+def skel : VPat → VPat
+  | .var _ name isVar canNone check => .var 0 name isVar (isVar && canNone) check
+  | .any => .any
+  | .const _ c => .const 0 c
+  | .out np idx => .out np idx
+  | .orD _ name tagVar alts => .orD 0 name tagVar alts
+  | .orB _ name tagVar tags alts => .orB 0 name tagVar tags (skelL alts)
+def skelL : List VPat → List VPat
+  | [] => []
+  | a :: rest => skel a :: skelL rest
+end
+
+def skelInputs (ins : List (Option VPat)) : List (Option VPat) := ins.map (fun i => i.map skel)
 
 inductive CommuteErr where
   | valueError       -- BacktrackingOr.__init__: "tag_var must be specified if tag_values is provided."
@@ -138,7 +161,7 @@ def copyGraph (fix7a : Bool) (p : GPat) (swaps : List Bool) : Except CommuteErr 
     if q.ctorOk then .ok q else .error .notImplemented
 
 /-- `GraphPattern.commute` -/
-def commute (fix7a : Bool) (p : GPat) : Except CommuteErr (List GPat) :=
-  (masks p.nodes).mapM (copyGraph fix7a p)
+def commute (fix7a : Bool) (p : GPat) (fix7b : Bool := false) : Except CommuteErr (List GPat) :=
+  (masks fix7b p.nodes).mapM (copyGraph fix7a p)
 
 end OV.C06
